@@ -111,12 +111,30 @@ def translate_method(module, cls, meth, args, depth=0):
 
 _LAST_DEFINED_IF = []
 
+def _cond_term(t, n):
+    """condition of an `if` in a formula body -> sympy relational"""
+    if isinstance(n, ast.Compare) and len(n.ops) == 1 and type(n.ops[0]) in (ast.Lt, ast.LtE, ast.Gt, ast.GtE, ast.Eq, ast.NotEq):
+        l, r_ = t.ev(n.left), t.ev(n.comparators[0])
+        return {ast.Lt: sp.Lt, ast.LtE: sp.Le, ast.Gt: sp.Gt, ast.GtE: sp.Ge, ast.Eq: sp.Eq, ast.NotEq: sp.Ne}[type(n.ops[0])](l, r_)
+    if isinstance(n, ast.BoolOp):
+        vs = [_cond_term(t, v) for v in n.values]
+        return sp.Or(*vs) if isinstance(n.op, ast.Or) else sp.And(*vs)
+    if isinstance(n, ast.UnaryOp) and isinstance(n.op, ast.Not): return sp.Not(_cond_term(t, n.operand))
+    raise Unsupported('condition %s in a formula body' % ast.unparse(n))
+
 def run_body(t, body):
-    for s in body:
+    for i, s in enumerate(body):
         if isinstance(s, ast.Assign) and len(s.targets) == 1 and isinstance(s.targets[0], ast.Name):
             t.env[s.targets[0].id] = t.ev(s.value)
         elif isinstance(s, ast.Return):
             return t.ev(s.value)
+        elif isinstance(s, ast.If):
+            # a formula by cases: the term is piecewise (each branch continues with the statements after the `if`)
+            import copy
+            c = _cond_term(t, s.test)
+            rest = list(body[i + 1:])
+            t1 = copy.copy(t); t1.env = dict(t.env); t2 = copy.copy(t); t2.env = dict(t.env)
+            return sp.Piecewise((run_body(t1, list(s.body) + rest), c), (run_body(t2, list(s.orelse) + rest), True))
         else:
             raise Unsupported('statement %s in a formula body' % type(s).__name__)
     raise Unsupported('formula without return')
